@@ -54,14 +54,23 @@ def _one(R, rng, i, dtype_opt, method, subproc):
     os.makedirs(d)
     shape = [rng.randrange(1, 7) for _ in range(3)]
     shape[rng.randrange(3)] = rng.choice([130, 150, 257, 300])
+    cubic_grid = i == 5
+    if cubic_grid:
+        # 3 x 3 x 3 chunks of 64 voxels, written into sharded storage: shards whose minishards have runs of
+        # unused identifiers in the middle
+        shape = [rng.choice([130, 150]) for _ in range(3)]
     dt = rng.choice(["uint8", "uint16", "uint32", "uint64", "float32"])
     nch = rng.choice([1, 1, 2, 3])
+    if cubic_grid:
+        dt, nch = rng.choice(["uint8", "uint16"]), 1
     # one run in six is a JPEG pipeline (8-bit, 1 or 3 channels)
     force_jpeg = i % 6 == 3 and dtype_opt != "segmentation"
     if force_jpeg:
         dt, nch = "uint8", rng.choice([1, 3])
     n = int(np.prod(shape)) * nch
-    if dt == "float32":
+    if cubic_grid:
+        vals = np.frombuffer(rng.randbytes(n * np.dtype(dt).itemsize), dtype=dt)
+    elif dt == "float32":
         vals = np.array([rng.uniform(0, 1000) for _ in range(n)], dtype=dt)
     else:
         hi = min(int(np.iinfo(dt).max), 2 ** 50)
@@ -79,6 +88,8 @@ def _one(R, rng, i, dtype_opt, method, subproc):
     if dt in ("uint8", "uint16", "float32") and rng.random() < 0.2:
         rd_opts += ["--input-min", rng.choice([0.0, 10.0]), "--input-max", rng.choice([255.0, 1000.0])]
     storage = rng.choice(["deep-gz", "flat", "flat-gz", "deep", "deep-gz", "flat", "sharded"])
+    if cubic_grid:
+        storage = "sharded"
     # anisotropic voxel sizes: consecutive scales then have different chunk sizes (sharded storage needs
     # cubic chunks: isotropic there)
     vox = (1.0, 1.0, 1.0) if storage == "sharded" else rng.choice([(1.0, 1.0, 1.0), (1.0, 1.0, 1.0), (1.0, 2.0, 2.0), (2.0, 2.0, 1.0), (2.0, 1.0, 2.0),
@@ -102,6 +113,9 @@ def _one(R, rng, i, dtype_opt, method, subproc):
         common.append("--no-gzip")
         acc["gzip"] = False
     sharding = rng.choice(["1,1,0", "2,0,1", "0,1,0"]) if storage == "sharded" else None
+    if cubic_grid:
+        sharding = rng.choice(["0,0,0", "1,1,0"])
+        R.count("sharded:3x3x3-chunk-grid")
     ds_opts = (["--downscaling-method", method] if method else [])
     if method in (None, "average") and rng.random() < 0.4:
         ds_opts += ["--outside-value", rng.choice([0, 1.5, 200])]
@@ -181,6 +195,31 @@ def _one(R, rng, i, dtype_opt, method, subproc):
     if why:
         R.violation("decoded voxels of the all-in-one run differ from the step-by-step run", case, {"why": why})
 
+    # ---- the all-in-one command a second time, with ANOTHER volume, into the same destination: a success
+    #      status must mean that the destination now holds the new volume's pyramid
+    if i % 4 == 2:
+        shape2 = [max(1, x - 1) if x < 100 else x + 7 for x in shape]
+        arr2 = (np.arange(int(np.prod(shape2)) * nch) % 251).astype(arr.dtype).reshape(shape2 + ([nch] if nch > 1 else []))
+        nii2 = os.path.join(d, "v2.nii")
+        pipeline.write_nifti(nii2, arr2, affine=affine)
+        a2_args = [nii2, A] + common + ds_opts + te_opts
+        rc2, so2, se2 = pipeline.run_script("volume_to_precomputed_pyramid", a2_args, inprocess=inproc)
+        R.count("second-all-in-one-into-same-destination:" + ("rc0" if rc2 == 0 else "refused"))
+        if rc2 == 0:
+            try:
+                info2, sc2 = decode_all(A, acc)
+                ok2 = info2["scales"][0]["size"] == list(shape2)
+            except Exception:  # noqa: BLE001
+                ok2 = False
+            if not ok2:
+                R.violation("a second all-in-one run with another volume exited 0 but the destination does not "
+                            "hold that volume's pyramid", case, {"second_shape": shape2})
+        else:
+            _i3, sc3 = decode_all(A, acc)
+            why = same(scA, sc3)
+            if why:
+                R.violation("a refused second all-in-one run changed the destination", case, {"why": why})
+
     # ---- repeat data-writing steps on their own output
     if storage != "sharded":
         for name, args in (steps[2], steps[3], steps[3]):
@@ -207,6 +246,30 @@ def _one(R, rng, i, dtype_opt, method, subproc):
                 R.violation("convert-chunks --copy-info output differs from its source", case, {"why": why})
         except Exception as e:  # noqa: BLE001
             R.violation("convert-chunks --copy-info output unreadable", case, {"exc": f"{type(e).__name__}: {e}"[:200]})
+    # convert-chunks into a destination whose info declares ANOTHER compressed_segmentation block size
+    if enc == "compressed_segmentation" and storage != "sharded":
+        Dd = os.path.join(d, "D")
+        os.makedirs(Dd)
+        dinfo = json.loads(json.dumps(infoB))
+        for x in dinfo["scales"]:
+            x["compressed_segmentation_block_size"] = rng.choice([[4, 4, 4], [16, 8, 4], [2, 2, 2]])
+        with open(os.path.join(Dd, "info"), "w") as f:
+            json.dump(dinfo, f)
+        rc, so, se = pipeline.run_script("convert_chunks", [B, Dd] + common, inprocess=inproc)
+        R.count("convert-to-other-block-size:" + ("rc0" if rc == 0 else "failed"))
+        if rc == 0:
+            try:
+                _, scD = decode_all(Dd, acc)
+                why = same(scB, scD)
+                if why:
+                    R.violation("convert-chunks to another compressed_segmentation block size exited 0 but the "
+                                "contents differ", case, {"why": why})
+            except Exception as e:  # noqa: BLE001
+                R.violation("convert-chunks to another compressed_segmentation block size exited 0 but the output "
+                            "is not readable", case, {"exc": f"{type(e).__name__}: {e}"[:200]})
+        else:
+            R.violation("convert-chunks to another compressed_segmentation block size failed", case,
+                        {"rc": rc, "stderr": se[-300:]})
     # convert-chunks into a SHARDED destination (real subprocess: flushed by the exit handler); exit
     # status 0 must mean every chunk is there and equal
     if storage != "sharded" and i % 4 == 1 and all(len(set(x["chunk_sizes"][0])) == 1 for x in infoB["scales"]):
